@@ -24,7 +24,8 @@
    ([v_tick_refresh], fixes/C11-stale-own-tick-entry.patch) / C11_stale_tick_refuted_hardened.
    [guarded] = [hardened] + the three patches of reports/C10C11-triage.md; [run] = [run_core] behind [gate] (Model/Build.v). *)
 From Coq Require Import String List Bool.
-From JMCV Require Import Model.FS Model.Build Proofs.FS Proofs.Build Proofs.BuildC10 Proofs.BuildC11 Proofs.BuildGate Proofs.BuildTick.
+From JMCV Require Import Model.FS Model.Build Proofs.FS Proofs.Build Proofs.BuildC10 Proofs.BuildC11 Proofs.BuildGate Proofs.BuildTick
+  Proofs.BuildCopy.
 Import ListNotations.
 
 (* After a successful compile the output is what the same project gives from ANY other startable tree with the same
@@ -195,3 +196,86 @@ Example C11_stale_tick_refreshed_guarded :
   file_at (t_after_B guarded) (load_path x_cfg) = Some (Tag ["ns:__load__"%string]).
 Proof. exact stale_tick_refreshed_guarded. Qed.
 Print Assumptions C11_stale_tick_refreshed_guarded.
+
+(* ---- Strengthening round 4: `#copy` and the function tags (Proofs/BuildCopy.v).
+   compiling.py merged_func_tag ([Build.early_tag]) decides, BEFORE the first mutation, which tag file the build adds its
+   own entry to: the one the #copy folder ships; else nothing, when the old output is deleted ([is_delete] = the namespace
+   folder exists) and no #static shields the file; else the file in the tree.  After every successful build the tag file is
+   exactly that merge - for the first build into a fresh directory and for every rebuild alike. *)
+Theorem C11_function_tags_merged : forall v c h o s pl s',
+  v_tags_early v = true -> v_cert_early v = false ->
+  run v c h (Success o) None s = (pl, RDone) -> exec pl s = Some s' ->
+  exists lv tv,
+    early_tag c h (is_dir s (ns_dir c)) s (load_path c) = Some lv /\
+    early_tag c h (is_dir s (ns_dir c)) s (tick_path c) = Some tv /\
+    ((forall q, In q (map fst (out_files c h o)) -> q <> load_path c) ->
+     file_at s' (load_path c) = Some (Tag (lv ++ [own_load c]))) /\
+    (o_tick o = true -> (forall q, In q (map fst (out_files c h o)) -> q <> tick_path c) ->
+     file_at s' (tick_path c) = Some (Tag (tv ++ [own_tick c]))).
+Proof. exact tags_merged. Qed.
+Print Assumptions C11_function_tags_merged.
+
+(* The load.json the #copy folder ships (`{"values": ["lib:init"]}`): from ANY tree - no hypothesis on it at all - the output
+   holds its foreign entries followed by this pack's load function ... *)
+Theorem C11_copied_tag_entries_kept : forall v c h o s pl s' vs,
+  v_tags_early v = true -> v_cert_early v = false ->
+  copy_file h (load_path c) = Some (Tag vs) ->
+  (forall q, In q (map fst (out_files c h o)) -> q <> load_path c) ->
+  run v c h (Success o) None s = (pl, RDone) -> exec pl s = Some s' ->
+  file_at s' (load_path c) = Some (Tag (foreign c vs ++ [own_load c])).
+Proof. exact copied_load_tag_merged. Qed.
+Print Assumptions C11_copied_tag_entries_kept.
+
+Theorem C11_copied_tick_entries_kept : forall v c h o s pl s' vs,
+  v_tags_early v = true -> v_cert_early v = false -> o_tick o = true ->
+  copy_file h (tick_path c) = Some (Tag vs) ->
+  (forall q, In q (map fst (out_files c h o)) -> q <> tick_path c) ->
+  run v c h (Success o) None s = (pl, RDone) -> exec pl s = Some s' ->
+  file_at s' (tick_path c) = Some (Tag (foreign c vs ++ [own_tick c])).
+Proof. exact copied_tick_tag_merged. Qed.
+Print Assumptions C11_copied_tick_entries_kept.
+
+(* ... so every rebuild gives the tag of the first build *)
+Theorem C11_copied_tags_rebuild_is_first_build : forall v c h o s1 s2 pl1 pl2 s1' s2' vs,
+  v_tags_early v = true -> v_cert_early v = false ->
+  copy_file h (load_path c) = Some (Tag vs) ->
+  (forall q, In q (map fst (out_files c h o)) -> q <> load_path c) ->
+  run v c h (Success o) None s1 = (pl1, RDone) -> exec pl1 s1 = Some s1' ->
+  run v c h (Success o) None s2 = (pl2, RDone) -> exec pl2 s2 = Some s2' ->
+  file_at s1' (load_path c) = file_at s2' (load_path c).
+Proof. exact copied_tags_same_from_any_tree. Qed.
+Print Assumptions C11_copied_tags_rebuild_is_first_build.
+
+(* a tag file inside a #static folder (not replaced by #copy) keeps its foreign entries through every rebuild ... *)
+Theorem C11_shielded_tag_entries_kept : forall v c h o s pl s' vs,
+  v_tags_early v = true -> v_cert_early v = false ->
+  copy_file h (load_path c) = None -> excepted h (load_path c) = true ->
+  file_at s (load_path c) = Some (Tag vs) ->
+  (forall q, In q (map fst (out_files c h o)) -> q <> load_path c) ->
+  run v c h (Success o) None s = (pl, RDone) -> exec pl s = Some s' ->
+  file_at s' (load_path c) = Some (Tag (foreign c vs ++ [own_load c])).
+Proof. exact shielded_load_tag_merged. Qed.
+Print Assumptions C11_shielded_tag_entries_kept.
+
+(* ... and one that is neither shipped nor shielded contributes nothing to a rebuild: the tag is the fresh one *)
+Theorem C11_unshielded_tag_fresh : forall v c h o s pl s',
+  v_tags_early v = true -> v_cert_early v = false ->
+  copy_file h (load_path c) = None -> excepted h (load_path c) = false -> is_dir s (ns_dir c) = true ->
+  (forall q, In q (map fst (out_files c h o)) -> q <> load_path c) ->
+  run v c h (Success o) None s = (pl, RDone) -> exec pl s = Some s' ->
+  file_at s' (load_path c) = Some (Tag [own_load c]).
+Proof. exact unshielded_load_tag_fresh. Qed.
+Print Assumptions C11_unshielded_tag_fresh.
+
+(* non-vacuity: #copy ships load.json = ["lib:init"; "ns:stale"]; the build into an empty directory and the rebuild over its
+   own output both give ["lib:init"; "ns:__load__"] *)
+Example C11_copied_tag_build_rebuild :
+  exists s1 s2, exec (plan guarded q_cfg q_hdr (Success q_out) None q_empty) q_empty = Some s1 /\
+    snd (run guarded q_cfg q_hdr (Success q_out) None q_empty) = RDone /\
+    exec (plan guarded q_cfg q_hdr (Success q_out) None s1) s1 = Some s2 /\
+    snd (run guarded q_cfg q_hdr (Success q_out) None s1) = RDone /\
+    is_dir s1 (ns_dir q_cfg) = true /\
+    file_at s1 (load_path q_cfg) = Some (Tag ["lib:init"; "ns:__load__"]%string) /\
+    file_at s2 (load_path q_cfg) = Some (Tag ["lib:init"; "ns:__load__"]%string).
+Proof. exact q_build_rebuild. Qed.
+Print Assumptions C11_copied_tag_build_rebuild.
